@@ -266,12 +266,26 @@ def write_replay(prop, viol, tier, seed):
     return path
 
 
+def _safe_classifier(mod):
+    """the optional module-level classify(violation) -> key; a classifier that cannot judge a violation leaves it unclassified (= real)"""
+    f = getattr(mod, 'classify', None)
+    if f is None:
+        return None
+
+    def g(v):
+        try:
+            return f(v)
+        except Exception:
+            return None
+    return g
+
+
 def conclude(mod, out, tier, seed, t0, extra_cov=None, exhaustive=False):
     """Classify violations, evaluate gates, write evidence, print verdict lines, return exit code."""
     prop = mod.ID
     acc = out.acc
     known, _fixed = known_findings(prop)
-    classify = getattr(mod, 'classify', None)
+    classify = _safe_classifier(mod)
     known_hits = Counter()
     real = []
     for v in acc['viol']:
@@ -380,7 +394,7 @@ def run_replay(modname, path):
     load_asm()
     acc = mod.replay(case)
     known, _ = known_findings(mod.ID)
-    classify = getattr(mod, 'classify', None)
+    classify = _safe_classifier(mod)
     real = [v for v in acc['viol'] if not ((v.get('key') or (classify(v) if classify else None)) in known)]
     if real:
         print('VIOLATION property=%s replay=%s' % (mod.ID, path))
